@@ -7,7 +7,8 @@ TEXT = ('Sibling agreement of the wet/dry tail of the five mixing effects (mix c
         'with dry the unmodified input frame); user parameters reach the stability-critical sinks (tan argument, resonance, '
         'q divisors) only through constant-bound clamps; no float division by a value derived from Decibels::as_amplitude '
         '(which returns exactly 0.0 at or below -60 dB) without a zero test; may-panic obligations of effect code come from '
-        'Engine A. Identity, linearity, finiteness and slicing independence as equalities of samples are not decided.')
+        'Engine A. Identity, linearity, finiteness and slicing independence as equalities of samples are not decided.'
+        ' Divisions by an amplitude are guarded by a zero test of the very value that divides.')
 TECHNIQUE = 'MIR operand-flow (taint) and sibling-agreement rules + effect analysis for panics'
 
 MIXING = ['effect::filter::Filter', 'effect::delay::Delay', 'effect::reverb::Reverb', 'effect::compressor::Compressor',
